@@ -27,7 +27,7 @@ def cells(tier):
     out = []
     for op in PAYLOAD_OPS:
         if op in ('roStoryAppend', 'roStoryInsert', 'roStoryReplace', 'EAStoryInsert', 'EAStoryReplace', 'roReplace',
-                  'roStorySend', 'EAStoryInsert-end', 'roStoryInsert-last'):
+                  'roStorySend', 'EAStoryInsert-end', 'roStoryInsert-last', 'roStoryInsert-dup', 'EAStoryInsert-dup'):
             edits = STORY_EDITS
         elif op == 'roMetadataReplace':
             edits = ('none', 'metadata', 'ro-delete', 'story-delete')
